@@ -46,7 +46,7 @@ def _reach_avoiding(b, frm, targets, avoid):
 def _runner(ctx, defn, label):
     b = ctx.ibody(defn)
     calls = b.real_calls()
-    P = [(bi, t, tm) for bi, t, tm in calls if mir.short(tm[1]) == "engine::process_with_audit"]
+    P = [(bi, t, tm) for bi, t, tm, _e, _ev in common.processing_sites(calls)]
     S = [(bi, t, tm) for bi, t, tm in calls if mir.short(tm[1]) == "ChannelTxDroppable::send"]
     FE = [(bi, t, tm) for bi, t, tm in calls if tm[1].endswith("Auditor::audit") and "FeedEnded" in render(tm)]
     ok = len(P) == 1 and len(S) == 2 and len(FE) == 1
@@ -87,7 +87,8 @@ def _runner(ctx, defn, label):
     ctx.check(label, all(b.dominates(fs[0], r) for r in ret_blocks) and fs[0] not in _reach_avoiding(b, fs[0], {fs[0]}, set()),
               "the final send is passed exactly once on every path to the return", key="final-once")
     # which tick does the loop break with? the terminal arm's value is P's result under is_terminal
-    seq = [mir.short(tm[1]) for bi, t, tm in calls
+    pterms = [x[2] for x in P]
+    seq = ["engine::process_with_audit" if tm in pterms else mir.short(tm[1]) for bi, t, tm in calls
            if mir.short(tm[1]) in ("engine::process_with_audit", "ChannelTxDroppable::send", "Auditor::audit", "SyncShutdown::shutdown",
                                    "Terminal::is_terminal")]
     return seq
